@@ -198,7 +198,7 @@ def run(ctx, rep):
             n_sites += 1
             rep.check(w_ok, "R4", key(f, c, "inside `with <order>.trade`"), f, c,
                       "outside the pending scope the trade can complete in the middle of a response")
-    rep.floor("R4", "status setter calls in response handlers", n_sites, 30)
+    rep.floor("R4", "status setter calls in response handlers", n_sites, 15)
     tx = prog.own_method("Trade", "__exit__")
     cfg = ctx.cfg(tx)
     live_calls = [n for n, c in node_calls(cfg, "_update_status") if utext(c.args[0]) == "TradeStatus.LIVE"]
